@@ -118,7 +118,7 @@ func metaEqual(a, b []pairingtypes.Metadata) bool {
 
 func (w *world) fail(format string, args ...any) {
 	msg := fmt.Sprintf(format, args...)
-	w.t.Fatalf("%s", ev.Violation("C36", "%s\n--- history of this case (chains %v) ---\n%s", msg, w.chains, strings.Join(w.log, "\n")))
+	w.t.Fatalf("%s", ev.Violation("C36", "%s\n--- history of this case (chains %v) ---\n%s\n=> C36 violated: %s", msg, w.chains, strings.Join(w.log, "\n"), msg))
 }
 
 // hashOf computes the request hash through the code under test and checks the third sentence of the
@@ -469,6 +469,42 @@ func genOptMeta(t *rapid.T) []pairingtypes.Metadata {
 	return out
 }
 
+// latestScenario: special requested blocks (latest, pending, safe, finalized) are resolved by the cache
+// with the latest block it knows FOR THAT CHAIN. Two chains know different latest blocks; the chain
+// with the lower one also holds an entry at the other chain's latest block. Block numbers grow from
+// case to case (above everything the random part uses) so that a latest block leaking between
+// chains or cases would be the maximum and resolve to the decoy entry.
+func (w *world) latestScenario(t *rapid.T, s reqSpec, fp *strings.Builder) int {
+	x := int64(1)<<41 + int64(caseSeq)*64 + 32
+	y := x - int64(1+uni(t, 8, "dy"))
+	fin := func(l string) bool { return uni(t, 2, l) == 0 }
+	pay := func() paySpec { return genPayload(t, false) }
+	const longBT = int64(3600e9)
+	op := 0
+	hashA := pick(t, hashPool, "sc_hash")
+	w.doSet(op, s, "scenario:A@X", 0, x, fin("sc_f1"), hashA, pay(), x, 0, "", longBT, false, true, nil)
+	op++
+	w.doSet(op, s, "scenario:B@Y", 1, y, fin("sc_f2"), hashA, pay(), y, 0, "", longBT, false, true, nil)
+	op++
+	w.doSet(op, s, "scenario:B@X(decoy, does not move B's latest block)", 1, x, fin("sc_f3"), hashA, pay(), 0, 0, "", longBT, false, true, nil)
+	op++
+	n := 2 + uni(t, 3, "sc_gets")
+	for i := 0; i < n; i++ {
+		special := pick(t, []int64{spectypes.LATEST_BLOCK, spectypes.LATEST_BLOCK, spectypes.PENDING_BLOCK, spectypes.SAFE_BLOCK, spectypes.FINALIZED_BLOCK, spectypes.EARLIEST_BLOCK, spectypes.NOT_APPLICABLE}, "sc_special")
+		chain := 1
+		if uni(t, 4, "sc_chain") == 0 {
+			chain = 0
+		}
+		gi := getInfo{vname: fmt.Sprintf("scenario:special_block(%d)", special), from: w.sets[len(w.sets)-1]}
+		w.classes["getvar:"+gi.vname] = true
+		w.doGet(op, s, gi, chain, special, fin("sc_f4"), hashA, 0, "")
+		op++
+	}
+	w.nontriv = true
+	fmt.Fprintf(fp, "SC|%d|%d|%x;", x-y, n, hashA)
+	return op
+}
+
 func propC36(t *rapid.T) {
 	c := ev.For("C36")
 	caseSeq++
@@ -483,11 +519,15 @@ func propC36(t *rapid.T) {
 		bases = append(bases, genSpec(t))
 	}
 	allowBig := uni(t, 100, "bigroll") < 8
-	nOps := (4 + uni(t, 15, "nops"))
+	nOps := (4 + uni(t, 13, "nops"))
 	var fp strings.Builder
 
-	for op := 0; op < nOps; op++ {
-		isSet := op == 0 || uni(t, 100, "isset") < 40
+	opBase := 0
+	if nChains == 2 && uni(t, 100, "latestscenario") < 18 {
+		opBase = w.latestScenario(t, bases[0], &fp)
+	}
+	for op := opBase; op < opBase+nOps; op++ {
+		isSet := op == opBase || uni(t, 100, "isset") < 40
 		if isSet {
 			s := pick(t, bases, "base")
 			vname := "base"
@@ -655,10 +695,10 @@ func propC36(t *rapid.T) {
 
 func TestC36(t *testing.T) {
 	c := ev.For("C36")
-	c.SetRule("a case = 1-2 chain ids (fresh namespace per case on one shared in-process cache server), 1-2 structured base requests and 4-18 SetRelay/GetRelay calls; " +
+	c.SetRule("a case = 1-2 chain ids (fresh namespace per case on one shared in-process cache server), 1-2 structured base requests and 4-16 SetRelay/GetRelay calls; " +
 		"85% of the gets are derived from an earlier set by exactly one difference (ignorable: JSON-RPC id value/position/presence, salt, seen block, request/task/tx id, request-block field; " +
 		"key-relevant: method, params, nested id, batch shape, raw body, REST body id, API url, connection type, API interface, add-on, headers, extensions, chain id, requested block incl. +-1/+256/^2^32 and special values, block hash; " +
-		"neutral: finalized flag, shared-state id, get seen block). Non-trivial = the case contains a derived get with a key-relevant difference that was evaluated against the stored entry, or a hit on a payload above the 1 MiB compression threshold. " +
+		"neutral: finalized flag, shared-state id, get seen block). 18% of the two-chain cases start with a scenario in which the chains know different latest blocks and the lower chain holds a decoy entry at the other chain's latest block, followed by gets with special requested blocks. Non-trivial = the case contains a derived get with a key-relevant difference that was evaluated against the stored entry, or a hit on a payload above the 1 MiB compression threshold. " +
 		"Distinct = distinct sequence of (op kind, variation, chain, block, flags, hash, payload class/size, canonical request).")
 	c.Assume(
 		"JSON-RPC / Tendermint-RPC requests carry a JSON object, a non-empty JSON batch of objects, or no body (what the chain parsers accept); other interfaces carry arbitrary bodies",
